@@ -56,6 +56,10 @@ func vSigIdx(s pipeline.Signal) int {
 type vConnCfg struct {
 	id   int
 	supp [4][4]bool
+	// selective: the connector uses the router API (RouterAndConsumer.PipelineIDs / Consumer(ids...)) and delivers only to the
+	// next pipelines whose name number is in sel (to nothing when none is); otherwise it hands the payload to its whole router.
+	selective bool
+	sel       []int
 }
 
 type vPipeCfg struct {
@@ -68,14 +72,75 @@ type vCfg struct {
 	pipes []vPipeCfg
 }
 
-func vID(n int) component.ID { return component.MustNewID("k" + strconv.Itoa(n)) }
+// Component ids and pipeline names are NUMBERS in the line protocol and in the model (identity is exact equality); the real
+// ids behind them are drawn from pools of near-collisions: case variants, a name that is a prefix of another, names containing
+// '/', a type equal to another component's name, case-variant types, the unnamed pipeline. Same ids are used across kinds and signals.
+var vCompIDs = map[int]component.ID{
+	1:  component.MustNewIDWithName("k", "EU"),
+	2:  component.MustNewIDWithName("k", "eu"),
+	3:  component.MustNewIDWithName("k", "e"),
+	4:  component.MustNewIDWithName("k", "eu/k"),
+	5:  component.MustNewID("kc"),
+	6:  component.MustNewID("KC"),
+	7:  component.MustNewIDWithName("kc7", "kc"),
+	8:  component.MustNewID("eu"),
+	9:  component.MustNewIDWithName("k", "k"),
+	10: component.MustNewIDWithName("k", "Eu"),
+	11: component.MustNewIDWithName("k", "eu/K"),
+}
+
+var vPipeNames = []string{"EU", "eu", "", "e", "eu/e", "Eu", "E", "eU"}
+
+var (
+	vCompNum    = map[component.ID]int{}
+	vCompByStr  = map[string]int{}
+	vPipeNumMap = map[string]int{}
+)
+
+func init() {
+	for n, id := range vCompIDs {
+		vCompNum[id] = n
+		vCompByStr[id.String()] = n
+	}
+	for n, s := range vPipeNames {
+		vPipeNumMap[s] = n
+	}
+	if len(vCompNum) != len(vCompIDs) || len(vCompByStr) != len(vCompIDs) || len(vPipeNumMap) != len(vPipeNames) {
+		panic("verif: id pools are not injective")
+	}
+}
+
+func vID(n int) component.ID {
+	id, ok := vCompIDs[n]
+	if !ok {
+		panic(fmt.Sprintf("verif: no component id %d", n))
+	}
+	return id
+}
 
 func vIDNum(id component.ID) int {
-	n, _ := strconv.Atoi(strings.TrimPrefix(id.Type().String(), "k"))
+	n, ok := vCompNum[id]
+	if !ok {
+		return -1
+	}
 	return n
 }
 
-func vPipeTok(id pipeline.ID) string { return fmt.Sprintf("%d.%s", vSigIdx(id.Signal()), id.Name()) }
+func vPipeID(sig, name int) pipeline.ID {
+	return pipeline.NewIDWithName(vSignals[sig], vPipeNames[name])
+}
+
+func vPipeNum(name string) int {
+	n, ok := vPipeNumMap[name]
+	if !ok {
+		return -1
+	}
+	return n
+}
+
+func vPipeTok(id pipeline.ID) string {
+	return fmt.Sprintf("%d.%d", vSigIdx(id.Signal()), vPipeNum(id.Name()))
+}
 
 // ---- instrumented components -------------------------------------------------------------------
 
@@ -87,13 +152,17 @@ type vWorld struct {
 	log       []string // lifecycle events (used by C10 harness variants)
 	failStart map[string]bool
 	failStop  map[string]bool
+	connCfg   map[int]vConnCfg // connector id -> its configuration (selection behaviour)
+	notRouter []string         // connector instances whose next consumer was not the pipeline router
 }
 
 func newVWorld() *vWorld {
-	return &vWorld{creates: map[string]int{}, recvNext: map[string]any{}, failStart: map[string]bool{}, failStop: map[string]bool{}}
+	return &vWorld{creates: map[string]int{}, recvNext: map[string]any{}, failStart: map[string]bool{}, failStop: map[string]bool{},
+		connCfg: map[int]vConnCfg{}}
 }
 
 type vNode struct {
+	conn   vConnCfg // connectors: selection behaviour
 	w      *vWorld
 	kind   byte
 	label  string
@@ -156,7 +225,50 @@ func (n *vNode) handle(ctx context.Context, trail string) error {
 		n.w.delivered = append(n.w.delivered, n.label+"|"+trail)
 		return nil
 	case 'c':
-		return vSend(ctx, n.next, n.outSig, vAppend(trail, n.label))
+		if !n.conn.selective {
+			return vSend(ctx, n.next, n.outSig, vAppend(trail, n.label))
+		}
+		// router API: choose the destination pipelines by id
+		var ids, pick []pipeline.ID
+		switch r := n.next.(type) {
+		case connector.TracesRouterAndConsumer:
+			ids = r.PipelineIDs()
+		case connector.MetricsRouterAndConsumer:
+			ids = r.PipelineIDs()
+		case connector.LogsRouterAndConsumer:
+			ids = r.PipelineIDs()
+		case xconnector.ProfilesRouterAndConsumer:
+			ids = r.PipelineIDs()
+		}
+		for _, id := range ids {
+			for _, x := range n.conn.sel {
+				if x == vPipeNum(id.Name()) {
+					pick = append(pick, id)
+					break
+				}
+			}
+		}
+		if len(pick) == 0 {
+			return nil
+		}
+		sort.Slice(pick, func(a, b int) bool { return pick[a].String() < pick[b].String() })
+		var cons any
+		var err error
+		switch r := n.next.(type) {
+		case connector.TracesRouterAndConsumer:
+			cons, err = r.Consumer(pick...)
+		case connector.MetricsRouterAndConsumer:
+			cons, err = r.Consumer(pick...)
+		case connector.LogsRouterAndConsumer:
+			cons, err = r.Consumer(pick...)
+		case xconnector.ProfilesRouterAndConsumer:
+			cons, err = r.Consumer(pick...)
+		}
+		if err != nil {
+			n.w.delivered = append(n.w.delivered, "error|"+vHex(err.Error()))
+			return nil
+		}
+		return vSend(ctx, cons, n.outSig, vAppend(trail, n.label))
 	}
 	return fmt.Errorf("unexpected kind %c", n.kind)
 }
@@ -222,10 +334,27 @@ func (w *vWorld) mkProc(id component.ID, next any) *vNode {
 	return n
 }
 
-func (w *vWorld) mkConn(id component.ID, es, rs int, next any) *vNode {
+// mkConn: every connector is entitled to the pipeline router as its next consumer (connector.New<Signal>Router over the
+// pipeline-id map); like testcomponents.ExampleRouter the test connector refuses to be created without it.
+func (w *vWorld) mkConn(id component.ID, es, rs int, next any) (*vNode, error) {
 	key := fmt.Sprintf("c%d:%d%d", vIDNum(id), es, rs)
+	isRouter := false
+	switch next.(type) {
+	case connector.TracesRouterAndConsumer:
+		isRouter = rs == 0
+	case connector.MetricsRouterAndConsumer:
+		isRouter = rs == 1
+	case connector.LogsRouterAndConsumer:
+		isRouter = rs == 2
+	case xconnector.ProfilesRouterAndConsumer:
+		isRouter = rs == 3
+	}
+	if !isRouter {
+		w.notRouter = append(w.notRouter, key)
+		return nil, fmt.Errorf("verif: next consumer of %s is not the pipeline router (%T)", key, next)
+	}
 	w.creates[key]++
-	return &vNode{w: w, kind: 'c', label: key, next: next, outSig: rs}
+	return &vNode{w: w, kind: 'c', label: key, next: next, outSig: rs, conn: w.connCfg[vIDNum(id)]}, nil
 }
 
 func (w *vWorld) recvFactory(t component.Type) receiver.Factory {
@@ -285,52 +414,52 @@ func (w *vWorld) connFactory(t component.Type, supp [4][4]bool) connector.Factor
 		}
 	}
 	add(0, 0, xconnector.WithTracesToTraces(func(_ context.Context, s connector.Settings, _ component.Config, n consumer.Traces) (connector.Traces, error) {
-		return w.mkConn(s.ID, 0, 0, n), nil
+		return w.mkConn(s.ID, 0, 0, n)
 	}, st))
 	add(0, 1, xconnector.WithTracesToMetrics(func(_ context.Context, s connector.Settings, _ component.Config, n consumer.Metrics) (connector.Traces, error) {
-		return w.mkConn(s.ID, 0, 1, n), nil
+		return w.mkConn(s.ID, 0, 1, n)
 	}, st))
 	add(0, 2, xconnector.WithTracesToLogs(func(_ context.Context, s connector.Settings, _ component.Config, n consumer.Logs) (connector.Traces, error) {
-		return w.mkConn(s.ID, 0, 2, n), nil
+		return w.mkConn(s.ID, 0, 2, n)
 	}, st))
 	add(0, 3, xconnector.WithTracesToProfiles(func(_ context.Context, s connector.Settings, _ component.Config, n xconsumer.Profiles) (connector.Traces, error) {
-		return w.mkConn(s.ID, 0, 3, n), nil
+		return w.mkConn(s.ID, 0, 3, n)
 	}, st))
 	add(1, 0, xconnector.WithMetricsToTraces(func(_ context.Context, s connector.Settings, _ component.Config, n consumer.Traces) (connector.Metrics, error) {
-		return w.mkConn(s.ID, 1, 0, n), nil
+		return w.mkConn(s.ID, 1, 0, n)
 	}, st))
 	add(1, 1, xconnector.WithMetricsToMetrics(func(_ context.Context, s connector.Settings, _ component.Config, n consumer.Metrics) (connector.Metrics, error) {
-		return w.mkConn(s.ID, 1, 1, n), nil
+		return w.mkConn(s.ID, 1, 1, n)
 	}, st))
 	add(1, 2, xconnector.WithMetricsToLogs(func(_ context.Context, s connector.Settings, _ component.Config, n consumer.Logs) (connector.Metrics, error) {
-		return w.mkConn(s.ID, 1, 2, n), nil
+		return w.mkConn(s.ID, 1, 2, n)
 	}, st))
 	add(1, 3, xconnector.WithMetricsToProfiles(func(_ context.Context, s connector.Settings, _ component.Config, n xconsumer.Profiles) (connector.Metrics, error) {
-		return w.mkConn(s.ID, 1, 3, n), nil
+		return w.mkConn(s.ID, 1, 3, n)
 	}, st))
 	add(2, 0, xconnector.WithLogsToTraces(func(_ context.Context, s connector.Settings, _ component.Config, n consumer.Traces) (connector.Logs, error) {
-		return w.mkConn(s.ID, 2, 0, n), nil
+		return w.mkConn(s.ID, 2, 0, n)
 	}, st))
 	add(2, 1, xconnector.WithLogsToMetrics(func(_ context.Context, s connector.Settings, _ component.Config, n consumer.Metrics) (connector.Logs, error) {
-		return w.mkConn(s.ID, 2, 1, n), nil
+		return w.mkConn(s.ID, 2, 1, n)
 	}, st))
 	add(2, 2, xconnector.WithLogsToLogs(func(_ context.Context, s connector.Settings, _ component.Config, n consumer.Logs) (connector.Logs, error) {
-		return w.mkConn(s.ID, 2, 2, n), nil
+		return w.mkConn(s.ID, 2, 2, n)
 	}, st))
 	add(2, 3, xconnector.WithLogsToProfiles(func(_ context.Context, s connector.Settings, _ component.Config, n xconsumer.Profiles) (connector.Logs, error) {
-		return w.mkConn(s.ID, 2, 3, n), nil
+		return w.mkConn(s.ID, 2, 3, n)
 	}, st))
 	add(3, 0, xconnector.WithProfilesToTraces(func(_ context.Context, s connector.Settings, _ component.Config, n consumer.Traces) (xconnector.Profiles, error) {
-		return w.mkConn(s.ID, 3, 0, n), nil
+		return w.mkConn(s.ID, 3, 0, n)
 	}, st))
 	add(3, 1, xconnector.WithProfilesToMetrics(func(_ context.Context, s connector.Settings, _ component.Config, n consumer.Metrics) (xconnector.Profiles, error) {
-		return w.mkConn(s.ID, 3, 1, n), nil
+		return w.mkConn(s.ID, 3, 1, n)
 	}, st))
 	add(3, 2, xconnector.WithProfilesToLogs(func(_ context.Context, s connector.Settings, _ component.Config, n consumer.Logs) (xconnector.Profiles, error) {
-		return w.mkConn(s.ID, 3, 2, n), nil
+		return w.mkConn(s.ID, 3, 2, n)
 	}, st))
 	add(3, 3, xconnector.WithProfilesToProfiles(func(_ context.Context, s connector.Settings, _ component.Config, n xconsumer.Profiles) (xconnector.Profiles, error) {
-		return w.mkConn(s.ID, 3, 3, n), nil
+		return w.mkConn(s.ID, 3, 3, n)
 	}, st))
 	return xconnector.NewFactory(t, vDefaultCfg, o...)
 }
@@ -350,6 +479,7 @@ func vSettings(w *vWorld, cfg vCfg) Settings {
 		id := vID(c.id)
 		cc[id] = &struct{}{}
 		cf[id.Type()] = w.connFactory(id.Type(), c.supp)
+		w.connCfg[c.id] = c
 	}
 	pcs := pipelines.Config{}
 	ids := func(l []int) []component.ID {
@@ -360,7 +490,7 @@ func vSettings(w *vWorld, cfg vCfg) Settings {
 		return o
 	}
 	for _, p := range cfg.pipes {
-		pcs[pipeline.NewIDWithName(vSignals[p.sig], strconv.Itoa(p.name))] = &pipelines.PipelineConfig{Receivers: ids(p.recv), Processors: ids(p.procs), Exporters: ids(p.exps)}
+		pcs[vPipeID(p.sig, p.name)] = &pipelines.PipelineConfig{Receivers: ids(p.recv), Processors: ids(p.procs), Exporters: ids(p.exps)}
 	}
 	return Settings{
 		Telemetry: componenttest.NewNopTelemetrySettings(), BuildInfo: component.NewDefaultBuildInfo(),
@@ -396,28 +526,35 @@ func vCorpus() []vCfg {
 		// 1 shared receiver/exporter, same processor ids in two pipelines of one signal, third pipeline other signal
 		{pipes: []vPipeCfg{{2, 0, []int{1, 2}, []int{1, 2}, []int{1}}, {2, 1, []int{1}, []int{2, 1}, []int{1, 2}}, {1, 0, []int{1}, nil, []int{1}}}},
 		// 2 chain of three with fan-in / fan-out through connectors
-		{conns: []vConnCfg{{5, vFull()}, {6, vFull()}}, pipes: []vPipeCfg{
+		{conns: []vConnCfg{{id: 5, supp: vFull()}, {id: 6, supp: vFull()}}, pipes: []vPipeCfg{
 			{0, 0, []int{1}, []int{1}, []int{5, 1}}, {0, 1, []int{2}, nil, []int{5}},
 			{1, 0, []int{5}, []int{2}, []int{6, 2}}, {1, 1, []int{5, 3}, []int{3}, []int{6}},
 			{2, 0, []int{6}, []int{1, 2, 3}, []int{1, 2}}}},
 		// 3 self cycle
-		{conns: []vConnCfg{{5, same()}}, pipes: []vPipeCfg{{0, 0, []int{1, 5}, []int{1}, []int{5, 1}}}},
+		{conns: []vConnCfg{{id: 5, supp: same()}}, pipes: []vPipeCfg{{0, 0, []int{1, 5}, []int{1}, []int{5, 1}}}},
 		// 4 two-pipeline cycle across signals
-		{conns: []vConnCfg{{5, vFull()}, {6, vFull()}}, pipes: []vPipeCfg{{0, 0, []int{1, 6}, []int{1}, []int{5}}, {1, 0, []int{5}, []int{1}, []int{6, 1}}}},
+		{conns: []vConnCfg{{id: 5, supp: vFull()}, {id: 6, supp: vFull()}}, pipes: []vPipeCfg{{0, 0, []int{1, 6}, []int{1}, []int{5}}, {1, 0, []int{5}, []int{1}, []int{6, 1}}}},
 		// 5 connector used only as exporter
-		{conns: []vConnCfg{{5, vFull()}}, pipes: []vPipeCfg{{0, 0, []int{1}, nil, []int{5}}}},
+		{conns: []vConnCfg{{id: 5, supp: vFull()}}, pipes: []vPipeCfg{{0, 0, []int{1}, nil, []int{5}}}},
 		// 6 connector used on both sides but the signal pair is not supported
-		{conns: []vConnCfg{{5, t2m}}, pipes: []vPipeCfg{{1, 0, []int{1}, nil, []int{5}}, {0, 0, []int{5}, nil, []int{1}}}},
+		{conns: []vConnCfg{{id: 5, supp: t2m}}, pipes: []vPipeCfg{{1, 0, []int{1}, nil, []int{5}}, {0, 0, []int{5}, nil, []int{1}}}},
 		// 7 one traces pipeline into two metrics pipelines and one traces pipeline: two connector instances
-		{conns: []vConnCfg{{5, vFull()}}, pipes: []vPipeCfg{{0, 0, []int{1}, []int{1}, []int{5}}, {1, 0, []int{5}, nil, []int{1}}, {1, 1, []int{5}, []int{2}, []int{1}}, {0, 1, []int{5}, nil, []int{2}}}},
+		{conns: []vConnCfg{{id: 5, supp: vFull()}}, pipes: []vPipeCfg{{0, 0, []int{1}, []int{1}, []int{5}}, {1, 0, []int{5}, nil, []int{1}}, {1, 1, []int{5}, []int{2}, []int{1}}, {0, 1, []int{5}, nil, []int{2}}}},
 		// 8 duplicated ids in the lists; id 3 is a connector although it also names a receiver/exporter config
-		{conns: []vConnCfg{{3, vFull()}}, pipes: []vPipeCfg{{2, 0, []int{1, 1, 2}, []int{3}, []int{3, 3, 1, 1}}, {2, 1, []int{3, 2, 3}, []int{1}, []int{2}}}},
+		{conns: []vConnCfg{{id: 3, supp: vFull()}}, pipes: []vPipeCfg{{2, 0, []int{1, 1, 2}, []int{3}, []int{3, 3, 1, 1}}, {2, 1, []int{3, 2, 3}, []int{1}, []int{2}}}},
 		// 9 partially supported: traces->metrics supported, traces->logs not, both used (allowed: "used correctly elsewhere")
-		{conns: []vConnCfg{{5, t2m}}, pipes: []vPipeCfg{{0, 0, []int{1}, nil, []int{5}}, {1, 0, []int{5}, nil, []int{1}}, {2, 0, []int{5, 1}, nil, []int{1}}}},
+		{conns: []vConnCfg{{id: 5, supp: t2m}}, pipes: []vPipeCfg{{0, 0, []int{1}, nil, []int{5}}, {1, 0, []int{5}, nil, []int{1}}, {2, 0, []int{5, 1}, nil, []int{1}}}},
 		// 10 processors whose configured order is the reverse of the lexical order of their ids ("k3" > "k2" > "k11" > "k10" > "k1")
 		{pipes: []vPipeCfg{{0, 0, []int{1}, []int{3, 2, 11, 10, 1}, []int{1}}, {1, 0, []int{2}, []int{2, 10, 1}, []int{1, 2}}}},
 		// 11 rejected by validation: no exporter in one pipeline, a processor listed twice in another
 		{pipes: []vPipeCfg{{0, 0, []int{1}, []int{1}, nil}, {2, 0, []int{1}, []int{2, 1, 2}, []int{1}}, {2, 1, []int{1}, nil, []int{1}}}},
+		// 12 router-API connector with exactly ONE next pipeline (it must still get the pipeline router), selecting it
+		{conns: []vConnCfg{{id: 5, supp: vFull(), selective: true, sel: []int{0, 1}}}, pipes: []vPipeCfg{{0, 0, []int{1}, []int{1}, []int{5}}, {1, 0, []int{5}, []int{2}, []int{1}}}},
+		// 13 router-API connectors with two and three next pipelines, selecting one / two / none of them by pipeline id
+		{conns: []vConnCfg{{id: 5, supp: vFull(), selective: true, sel: []int{1}}, {id: 6, supp: vFull(), selective: true, sel: []int{0, 2}}, {id: 7, supp: vFull(), selective: true, sel: []int{3}}},
+			pipes: []vPipeCfg{{0, 0, []int{1}, nil, []int{5, 6, 7}}, {1, 0, []int{5, 6}, []int{1}, []int{1}}, {1, 1, []int{5, 6, 7}, []int{2}, []int{2}}, {1, 2, []int{6, 7}, []int{3}, []int{3}}}},
+		// 14 near-colliding ids side by side: receivers/exporters k/EU (1), k/eu (2), k/Eu (10) in pipelines logs/EU (0), logs/eu (1), logs (2), logs/Eu (5)
+		{pipes: []vPipeCfg{{2, 0, []int{1}, []int{2}, []int{2}}, {2, 1, []int{2}, []int{1}, []int{1}}, {2, 2, []int{10, 1}, []int{10, 2, 1}, []int{10}}, {2, 5, []int{2}, []int{1, 10}, []int{1, 10}}}},
 	}
 }
 
@@ -468,10 +605,18 @@ func vGen(rnd *rand.Rand) vCfg {
 			c.id = 1 + rnd.IntN(4) // a connector whose id also names receiver/exporter configs
 			dup := false
 			for _, x := range cfg.conns {
-				dup = dup || x.id == c.id
+				dup = dup || x.id <= 4 // connector factories are per TYPE and ids 1-4 share the type "k": one of them at most
 			}
 			if dup {
 				c.id = 5 + k
+			}
+		}
+		if rnd.IntN(5) < 2 { // router-API connector delivering to a subset chosen by pipeline id
+			c.selective = true
+			for x := 0; x < 4; x++ {
+				if rnd.IntN(5) < 3 {
+					c.sel = append(c.sel, x)
+				}
 			}
 		}
 		switch rnd.IntN(4) {
@@ -561,7 +706,7 @@ func vSmall(idx int) (vCfg, bool) {
 			}
 		}
 	}
-	cfg := vCfg{conns: []vConnCfg{{5, vFull()}, {6, vFull()}}}
+	cfg := vCfg{conns: []vConnCfg{{id: 5, supp: vFull()}, {id: 6, supp: vFull()}}}
 	cfg.conns[1].supp[0][1] = false
 	names := map[int]int{}
 	for i := 0; i < np; i++ {
@@ -616,7 +761,11 @@ func vEmitCfg(out *vOut, cfg vCfg) {
 		if s == "" {
 			s = "-"
 		}
-		out.Linef("op conn %d %s", c.id, s)
+		if c.selective {
+			out.Linef("op conn %d %s sel=%s", c.id, s, vJoin(c.sel))
+		} else {
+			out.Linef("op conn %d %s", c.id, s)
+		}
 	}
 	for _, p := range cfg.pipes {
 		out.Linef("op pipe %d %d %s %s %s", p.sig, p.name, vJoin(p.recv), vJoin(p.procs), vJoin(p.exps))
@@ -638,8 +787,8 @@ func vErrClass(err error) string {
 }
 
 var (
-	vReCycConn = regexp.MustCompile(`^connector "k(\d+)" \((\w+) to (\w+)\)$`)
-	vReCycProc = regexp.MustCompile(`^processor "k(\d+)" in pipeline "(\w+)/(\d+)"$`)
+	vReCycConn = regexp.MustCompile(`^connector "([^"]+)" \((\w+) to (\w+)\)$`)
+	vReCycProc = regexp.MustCompile(`^processor "([^"]+)" in pipeline "([a-z]+)(?:/([^"]*))?"$`)
 )
 
 // vCycleTokens: the cycle printed by cycleErr as node tokens (c<id>:<es><rs>, p<id>@<sig>.<name>); "?" for an unparsable element.
@@ -647,10 +796,10 @@ func vCycleTokens(msg string) []string {
 	sig := map[string]int{"traces": 0, "metrics": 1, "logs": 2, "profiles": 3}
 	var toks []string
 	for _, el := range strings.Split(strings.TrimPrefix(msg, "cycle detected: "), " -> ") {
-		if m := vReCycConn.FindStringSubmatch(el); m != nil {
-			toks = append(toks, fmt.Sprintf("c%s:%d%d", m[1], sig[m[2]], sig[m[3]]))
-		} else if m := vReCycProc.FindStringSubmatch(el); m != nil {
-			toks = append(toks, fmt.Sprintf("p%s@%d.%s", m[1], sig[m[2]], m[3]))
+		if m := vReCycConn.FindStringSubmatch(el); m != nil && vCompByStr[m[1]] != 0 {
+			toks = append(toks, fmt.Sprintf("c%d:%d%d", vCompByStr[m[1]], sig[m[2]], sig[m[3]]))
+		} else if m := vReCycProc.FindStringSubmatch(el); m != nil && vCompByStr[m[1]] != 0 && vPipeNum(m[3]) >= 0 {
+			toks = append(toks, fmt.Sprintf("p%d@%d.%d", vCompByStr[m[1]], sig[m[2]], vPipeNum(m[3])))
 		} else {
 			toks = append(toks, "?")
 		}
@@ -813,6 +962,9 @@ func TestVerifC09Graph(t *testing.T) {
 				shared = shared || seen[k+"/"+strconv.Itoa(p.name)] == false && seen[k]
 				seen[k], seen[k+"/"+strconv.Itoa(p.name)] = true, true
 			}
+		}
+		for _, k := range w.notRouter {
+			out.Linef("viol sig=C09/connector/next-consumer-is-not-the-pipeline-router %s", k)
 		}
 		if err != nil {
 			if cls == "err=cycle" {
